@@ -90,7 +90,76 @@ def lb(e, iv):
     return -ub(e.scale(-1), iv)
 
 
+def _diff_form(e):
+    """(x, y, c) for e = x - y + c ; x or y may be None (zero node).  None when e is not a difference form."""
+    if len(e.t) == 1:
+        s, k = e.t[0]
+        if k == 1:
+            return (s, None, e.c)
+        if k == -1:
+            return (None, s, e.c)
+        return None
+    if len(e.t) == 2:
+        (s1, k1), (s2, k2) = e.t
+        if k1 == 1 and k2 == -1:
+            return (s1, s2, e.c)
+        if k1 == -1 and k2 == 1:
+            return (s2, s1, e.c)
+    return None
+
+
+def entails_diff(facts, iv, e):
+    """complete decision for difference constraints (shortest paths); chains of any length"""
+    g = _diff_form(e)
+    if g is None:
+        return False
+    x, y, c = g          # goal: x - y <= -c
+    edges = {}
+    syms = set()
+
+    def add(a, b, w):    # a - b <= w  : edge b -> a
+        k = (b, a)
+        if k not in edges or edges[k] > w:
+            edges[k] = w
+    for f in facts:
+        d = _diff_form(f)
+        if d is None:
+            continue
+        a, b, cc = d
+        add(a, b, -cc)
+        syms.add(a)
+        syms.add(b)
+    syms.add(x)
+    syms.add(y)
+    for s in syms:
+        if s is None:
+            continue
+        lo, hi = iv.get(s, (-INF, INF))
+        if hi < INF:
+            add(s, None, hi)
+        if lo > -INF:
+            add(None, s, -lo)
+    # Bellman-Ford from y
+    dist = {y: 0}
+    nodes = list(syms | {None})
+    for _ in range(len(nodes)):
+        changed = False
+        for (b, a), w in edges.items():
+            if b in dist and (a not in dist or dist[a] > dist[b] + w):
+                dist[a] = dist[b] + w
+                changed = True
+        if not changed:
+            break
+    return x in dist and dist[x] <= -c
+
+
 def entails(facts, iv, e, depth=3, trace=None):
+    if _entails(facts, iv, e, depth, trace):
+        return True
+    return entails_diff(facts, iv, e)
+
+
+def _entails(facts, iv, e, depth=3, trace=None):
     """facts: iterable of Lin f meaning f <= 0.  Decide facts |- e <= 0 by interval evaluation
     of e minus a non-negative combination of at most `depth` facts chosen to cancel symbols."""
     if ub(e, iv) <= 0:
